@@ -63,6 +63,14 @@ def main():
                    'demo_patched_rc': rc1, 'checks': verdicts}
             rows.append(row)
             print(json.dumps(row))
+            if '--save' in args:
+                prev = {}
+                lp = os.path.join(d, 'last_eval.json')
+                if os.path.exists(lp):
+                    prev = json.load(open(lp))
+                prev.setdefault('checks', {}).update({k: dict(v, tier=tier) for k, v in verdicts.items()})
+                prev.update({k: row[k] for k in ('demo_pristine_rc', 'tests_with_patch', 'demo_patched_rc')})
+                json.dump(prev, open(lp, 'w'), indent=1)
             sys.stdout.flush()
         finally:
             shutil.rmtree(top, ignore_errors=True)
